@@ -102,6 +102,9 @@ func ReadRequest(r *bufio.Reader) (*Request, error) {
 
 	// 读取Body
 	cl := req.Header.Int(FieldContentLength)
+	if cl > maxContentLength {
+		return nil, &badStringError{"Content-Length too large", req.Header.get(FieldContentLength)}
+	}
 	if cl > 0 {
 		// 读取 n 字节的字串Body
 		body := make([]byte, cl)
